@@ -6,3 +6,4 @@ git apply --check "$1"
 git apply "$1"
 git commit -qa -F "$2"
 git log --oneline | head -1
+/verif/tools/update_anchor_lock.py
